@@ -449,8 +449,71 @@ class Raster(Suite):
         t["xyz"] = [[0.0, 0.0, 0.0], [0.5, 0.0, 3.0]]; t["r"] = [1.0, 1.0]      # z-extent of the box: 5
         for res in ([1.0, 1.0, 3.0], 0.75):
             out.append({"class": "n2/indivisible", "tree": t, "res": res})
+        out.extend(self.branch_cases(rng, tier == "thorough" or widen))
         out.extend(self.seq_cases(rng, tier == "thorough" or widen))
         return out
+
+    # a BRANCH POINT one of whose compartments is degenerate (one end ball contains the other) while its siblings are ordinary processes: a thin
+    # branch point next to a swelling / varicosity (the child's ball contains the branch point's), or a thick branch point (soma, bouton) with a
+    # short stub inside it (the parent's ball contains the child's).  The degenerate child stands first, in the middle or last among its
+    # siblings (id order = the order the scene is built in); further siblings may be degenerate too; the branch point is the root or has a stem.
+    DIRS = ["child-contains-parent", "parent-contains-child"]
+    POS = ["first", "middle", "last"]
+
+    def branch_cases(self, rng, big):
+        out = []
+        for direction in self.DIRS:
+            for pos in self.POS:
+                for _ in range(3 if big else 1):
+                    out.append(self.branch_case(rng, direction, pos, big))
+        return out
+
+    @staticmethod
+    def branch_case(rng, direction, pos, big):
+        k = rng.choice([3, 4] if pos == "middle" else [2, 2, 3, 4]) + (rng.choice([0, 2]) if big else 0)      # number of children
+        at = 0 if pos == "first" else (k - 1 if pos == "last" else rng.randrange(1, k - 1))
+        stem = rng.random() < 0.6
+        g = lambda lo, hi: rng.choice([-1, 1]) * rng.randint(lo, hi) / 8.0
+        centre = [g(0, 16) for _ in range(3)]
+        rp = rng.choice([0.5, 0.5, 0.75, 1.0]) if direction == "child-contains-parent" else rng.choice([1.5, 2.0, 2.5, 3.0])
+        xyz, r, pids = [], [], []
+        if stem:
+            xyz.append([centre[0] + g(24, 40), centre[1] + g(0, 16), centre[2] + g(0, 16)]); r.append(rng.choice([0.5, 1.0])); pids.append(-1)
+        bp = len(xyz)
+        xyz.append(centre); r.append(rp); pids.append(bp - 1)
+        degenerate = {at} | {i for i in range(k) if rng.random() < 0.15}
+        kinds = []
+        for i in range(k):
+            if i in degenerate:
+                d_i = direction if i == at else rng.choice(Raster.DIRS)
+                if d_i == "child-contains-parent":
+                    rc = rp + rng.choice([0.5, 1.0, 1.5, 2.0, 2.5])
+                else:
+                    rc = rng.choice([x for x in (0.25, 0.5, 0.75, 1.0) if x < rp] or [rp / 2])
+                # centre of the child within |r_child - r_parent| of the branch point (lattice offsets of 1/8, coincident centres included)
+                lim = abs(rc - rp)
+                for _try in range(200):
+                    d = [rng.randint(-int(lim * 8), int(lim * 8)) / 8.0 for _ in range(3)]
+                    if math.sqrt(sum(v * v for v in d)) <= lim - 1 / 64:
+                        break
+                else:
+                    d = [0.0, 0.0, 0.0]
+                kinds.append(d_i)
+            else:
+                # an ordinary process: leaves the branch point far beyond every ball around it
+                rc = rng.choice([0.25, 0.5, 0.5, 0.75, 1.0])
+                ax = rng.randrange(3)
+                d = [g(0, 16) for _ in range(3)]; d[ax] = g(36, 64)
+                kinds.append("-")
+            xyz.append([centre[j] + d[j] for j in range(3)]); r.append(rc); pids.append(bp)
+        if rng.random() < 0.5:
+            # one of the children goes on
+            c = bp + 1 + rng.randrange(k)
+            xyz.append([xyz[c][j] + g(8, 24) for j in range(3)]); r.append(rng.choice([0.5, 0.75, 1.0])); pids.append(c)
+        n = len(xyz)
+        t = {"class": "branch/sorted", "n": n, "pids": pids, "types": [1] + [3] * (n - 1), "xyz": xyz, "r": r}
+        return {"class": f"n{n}/branch-contained/{direction}/{pos}-of-{k}" + ("/stem" if stem else "/root") + (f"/{len(degenerate)}-degenerate" if len(degenerate) > 1 else ""),
+                "tree": t, "res": rng.choice([0.5, 1.0, 1.0, 0.75, [1.0, 0.5, 2.0], [1.0, 1.0, 0.5]]), "siblings": kinds}
 
     # a SEQUENCE of rasterisations, as a pipeline does them: a neuron read from an SWC file (it then carries its `source`) or built in memory, and
     # variants of it - the augmentations and edits of the library (translated, mirrored, rescaled, radii reset, a tip pruned, the file edited and
@@ -739,9 +802,12 @@ class Raster(Suite):
         if res["shape"] != want_shape:
             out.append(("raster-shape", f"stack shape (Z,X,Y)={res['shape']}, the bounding box {lo}..{hi} at resolution {rs} needs {want_shape}"))
             return out
+        Z, X, Y = res["shape"]
+        if Z * X * Y > 500:
+            # the same judgement, all voxels at once (large boxes)
+            return out + judge_raster(xyz, r, t["pids"], [float(v) for v in rs], res["shape"], res["lit"])
         lit = {tuple(v) for v in res["lit"]}
         margin = 0.08
-        Z, X, Y = res["shape"]
         bad = None
         for k in range(Z):
             for i in range(X):
